@@ -156,16 +156,18 @@ Section Equivariance.
     (forall k a, h' (rho k, a) = h (k, a)) -> map (fun na => (fst na, h' na)) (rf F) = rf (map (fun na => (fst na, h na)) F).
   Proof. intros H. unfold rf, rename_frame. rewrite !map_map. apply map_ext. intros [k a]. simpl. rewrite H. reflexivity. Qed.
 
-  Theorem plain_join_equivariant how on lf rg :
-    plain_join P how (map rho on) (rf lf) (rf rg) = option_map rf (plain_join P how on lf rg).
+  Theorem plain_join_equivariant how on nullkeys lf rg :
+    plain_join P how (map rho on) nullkeys (rf lf) (rf rg) = option_map rf (plain_join P how on nullkeys lf rg).
   Proof.
     unfold plain_join. fold one.
     assert (Ka : forall F, match map rho on with [] => Some [one] | _ :: _ => freads (rf F) (map rho on) end
                            = match on with [] => Some [one] | _ :: _ => freads F on end).
     { intros F. destruct on as [|o1 os]; [reflexivity|]. apply (rf_reads F (o1 :: os)). }
     rewrite (Ka lf), (Ka rg).
-    destruct (match on with [] => Some [one] | _ :: _ => freads lf on end) as [ka|]; simpl; [|reflexivity].
-    destruct (match on with [] => Some [one] | _ :: _ => freads rg on end) as [kb|]; simpl; [|reflexivity].
+    destruct (match on with [] => Some [one] | _ :: _ => freads lf on end) as [ka1|]; simpl; [|reflexivity].
+    destruct (match on with [] => Some [one] | _ :: _ => freads rg on end) as [kb1|]; simpl; [|reflexivity].
+    set (ka := if nullkeys then ka1 ++ [p_nullmark_left P ka1] else ka1).
+    set (kb := if nullkeys then kb1 ++ [p_nullmark_right P kb1] else kb1).
     f_equal. rewrite rf_app. f_equal.
     - apply map_rf_commute. intros k a. simpl. rewrite (mem_inj rho Hinj), rf_get. reflexivity.
     - assert (Ef : filter (fun nb : string * A => negb (mem (fst nb) (fcols (rf lf)))) (rf rg) = rf (filter (fun nb => negb (mem (fst nb) (fcols lf))) rg)).
@@ -177,7 +179,7 @@ Section Equivariance.
   Theorem plain_equivariant s f g :
     plain P (rename_step rho s) (rf f) (rf g) = option_map rf (plain P s f g).
   Proof.
-    destruct s as [ops gb|ops part order rev|how on]; simpl;
+    destruct s as [ops gb|ops part order rev|how on nk]; simpl;
       [apply plain_project_equivariant|apply plain_wextend_equivariant|apply plain_join_equivariant].
   Qed.
 
